@@ -22,3 +22,6 @@ import SpoxModel.Props.C03
 #print axioms C03.pinned_statements_counterexample
 #print axioms C03.arguments_of_main_graph
 #print axioms C03.recursion_only_along_nesting
+#print axioms C03.missing_input_preset_name_counterexample
+#print axioms C03.inputs_dropped_noclash
+#print axioms C03.missing_input_keyerror_noclash
